@@ -252,9 +252,7 @@ func (g *c09Gen) bytesArray() *c09Ty {
 	e := prim("u8")
 	if g.r.Intn(40) == 0 {
 		e = &c09Ty{k: "named", e: prim("u8")}
-		if n > 0 {
-			g.flags["nb"] = true
-		}
+		g.flags["nb"] = true
 	}
 	return &c09Ty{k: "array", n: n, e: e, zero: n == 0}
 }
@@ -333,9 +331,15 @@ func (g *c09Gen) plainField(depth int) c09Field {
 // must agree with the implementation on each of them (DESIGN.md Appendix G).
 func (g *c09Gen) quirkField(f *c09Field) {
 	g.clean = false
+	c09QuirkShape(f, g.r.Intn(c09NQuirks))
+}
+
+const c09NQuirks = 14
+
+func c09QuirkShape(f *c09Field, which int) {
 	enum := &c09Ty{k: "named", e: prim("u64")}
 	bs := &c09Ty{k: "slice", e: prim("u8")}
-	switch g.r.Intn(14) {
+	switch which {
 	case 0: // untagged enum: encodes 0 as nothing, never decodes
 		f.t = enum
 	case 1: // untagged byte string
@@ -984,6 +988,16 @@ func c09Flags(m map[string]bool) string {
 	return strings.Join(fs, ",")
 }
 
+// c09SmallBytes: bytes from {0,1,2,5,255}: likely selector values and short lengths.
+func c09SmallBytes(r *verifkit.Rand) []byte {
+	al := []byte{0, 0, 1, 1, 2, 5, 255}
+	b := make([]byte, r.Intn(20))
+	for i := range b {
+		b[i] = al[r.Intn(len(al))]
+	}
+	return b
+}
+
 func c09NewCase(r *verifkit.Rand, quirk bool) *c09Case {
 	g := &c09Gen{r: r, clean: true, flags: map[string]bool{}, quirk: quirk}
 	c := &c09Case{}
@@ -1048,6 +1062,7 @@ func c09Run(out *verifkit.Out, r *verifkit.Rand, c *c09Case, nvals int) {
 			out.T(op, "err")
 			// what the decoder makes of random bytes for this type
 			c09DecodeCheck(out, c, r.Bytes(r.Intn(16)), "random")
+			c09DecodeCheck(out, c, c09SmallBytes(r), "random-small")
 			continue
 		}
 		out.Count("class:enc-ok")
@@ -1099,6 +1114,7 @@ func c09Run(out *verifkit.Out, r *verifkit.Rand, c *c09Case, nvals int) {
 		}
 		if i%4 == 0 {
 			c09DecodeCheck(out, c, r.Bytes(r.Intn(24)), "random")
+			c09DecodeCheck(out, c, c09SmallBytes(r), "random-small")
 		}
 	}
 }
@@ -1126,6 +1142,10 @@ func c09Corpus(out *verifkit.Out, r *verifkit.Rand) {
 	c09DecodeCheck(out, f2, h("0000000000000005"), "corpus")
 	f2b := mk(&c09Ty{k: "slice", e: prim("u8")}, "maxlen:72057594037927936", &c09Info{count: 8, max: 1 << 56, ranged: true}, "w8")
 	c09Run(out, r, f2b, 3)
+	f2c := mk(&c09Ty{k: "slice", e: prim("u8")}, "maxlen:18446744073709551615", &c09Info{count: 8, max: math.MaxUint64, ranged: true}, "w8")
+	c09DecodeCheck(out, f2c, h("ffffffffffffffff00"), "corpus") // a declared length above MaxInt64 must be an error, not a negative slice bound
+	c09DecodeCheck(out, f2c, h("800000000000000000"), "corpus")
+	c09DecodeCheck(out, f2c, h("00000000000000020102"), "corpus")
 	// named byte elements
 	nb := &c09Ty{k: "named", e: prim("u8")}
 	f4 := mk(&c09Ty{k: "struct", fs: []c09Field{{name: "V", tag: "maxlen:255", t: &c09Ty{k: "slice", e: nb}, info: &c09Info{count: 1, max: 255, ranged: true}}}}, "", nil, "nb")
@@ -1141,6 +1161,34 @@ func c09Corpus(out *verifkit.Out, r *verifkit.Rand) {
 	inner := &c09Ty{k: "struct", fs: []c09Field{{name: "Val", tag: "minlen:1,maxlen:65535", t: &c09Ty{k: "slice", e: prim("u8")}, info: &c09Info{count: 2, min: 1, max: 65535, ranged: true}}}}
 	doc2 := mk(&c09Ty{k: "struct", fs: []c09Field{{name: "Inners", tag: "minlen:1,maxlen:65535", t: &c09Ty{k: "slice", e: inner}, info: &c09Info{count: 2, min: 1, max: 65535, ranged: true}}}}, "", nil, "")
 	c09Run(out, r, doc2, 8)
+	// every shape outside the well-formed grammar once, between two ordinary fields (no expectation: the model must agree)
+	for q := 0; q < c09NQuirks; q++ {
+		f := c09Field{name: "Q"}
+		c09QuirkShape(&f, q)
+		c := mk(&c09Ty{k: "struct", fs: []c09Field{{name: "A", t: prim("u16")}, f, {name: "Z", t: prim("u8")}}}, "", nil, "")
+		c.clean = false
+		c09Run(out, r, c, 6)
+	}
+	// badly annotated variants
+	sel := c09Field{name: "Sel", tag: "size:1", t: enum(), info: &c09Info{count: 1}}
+	va := func(name string, val uint64, t *c09Ty) c09Field {
+		return c09Field{name: name, tag: fmt.Sprintf("selector:Sel,val:%d", val), t: &c09Ty{k: "ptr", e: t}, variant: true, sel: "Sel", val: val}
+	}
+	dup := mk(&c09Ty{k: "struct", fs: []c09Field{sel, va("V1", 1, prim("u16")), va("V2", 1, prim("u8")), va("V3", 2, prim("u32"))}}, "", nil, "")
+	notSeen := mk(&c09Ty{k: "struct", fs: []c09Field{va("V1", 1, prim("u16")), sel, va("V2", 2, prim("u8"))}}, "", nil, "")
+	np := va("V1", 1, prim("u16"))
+	np.t = prim("u16")
+	notPtr := mk(&c09Ty{k: "struct", fs: []c09Field{sel, np, va("V2", 2, prim("u8"))}}, "", nil, "")
+	lost := va("V1", 1, enum())
+	lost.tag, lost.variant = "selector:Sel,val:1,size:2", false // `size` after `selector` wipes the selector: a plain pointer field
+	selLost := mk(&c09Ty{k: "struct", fs: []c09Field{sel, lost}}, "", nil, "")
+	u64sel := mk(&c09Ty{k: "struct", fs: []c09Field{{name: "Sel", t: prim("u64")}, va("V1", 0, prim("u16")), va("V2", 1<<40, prim("u8"))}}, "", nil, "")
+	u64sel.clean = true
+	for _, c := range []*c09Case{dup, notSeen, notPtr, selLost} {
+		c.clean = false
+		c09Run(out, r, c, 10)
+	}
+	c09Run(out, r, u64sel, 10)
 	// F3 last (each hang leaves a spinning goroutine behind): []struct{} with a non-empty body
 	zw := &c09Ty{k: "struct", zero: true}
 	f3 := mk(&c09Ty{k: "slice", e: zw}, "maxlen:255", &c09Info{count: 1, max: 255, ranged: true}, "zw")
@@ -1156,8 +1204,8 @@ func TestVerifC09(t *testing.T) {
 	defer out.Close()
 	r := verifkit.NewRand(verifkit.Seed())
 	c09Corpus(out, r)
-	ntypes := verifkit.N(300, 4000)
-	nvals := verifkit.N(12, 24)
+	ntypes := verifkit.N(300, 10000)
+	nvals := verifkit.N(12, 30)
 	for it := 0; it < ntypes; it++ {
 		c := c09NewCase(r, it%4 == 3)
 		c09Run(out, r, c, nvals)
